@@ -43,21 +43,21 @@ func TestMain(m *testing.M) {
 // provides them); their jq definition is a pass-through.
 const refPrelude = "def debug: .; def debug(f): (f | empty), .; def stderr: .; "
 
-const mark = "C07-DETECTOR-MARK"
-
 // detectors attribute a mismatch to a precondition of a listed finding: the
-// reference is re-run with an instrumented definition that halts (halt_error
-// is not catchable) when the precondition is met.
+// reference is re-run with an instrumented definition that calls _c07_mark (a
+// Go function that only sets a flag) when the precondition is met.  The run
+// itself is not disturbed, so it does not matter whether the place is inside
+// try, ?// or label.
 var detectors = []struct{ sig, prelude string }{
-	{"fromjson-object-key-order", `def _c07_fromjson: fromjson; def fromjson: _c07_fromjson | if isempty(.. | objects | select(length > 1)) then . else ("` + mark + `" | halt_error) end; `},
-	{"fromjson-nonstring-input-accepted", `def _c07_fromjson: fromjson; def fromjson: if type == "string" then _c07_fromjson else ("` + mark + `" | halt_error) end; `},
-	{"split1-is-regex-split", `def _c07_split($s): split($s); def split($s): if ($s | type) == "string" and type == "string" and (($s | contains("\\")) or ($s | explode | implode) != $s or (explode | implode) != .) then ("` + mark + `" | halt_error) else _c07_split($s) end; `},
+	{"fromjson-object-key-order", `def _c07_fromjson: fromjson; def fromjson: _c07_fromjson | if isempty(.. | objects | select(length > 1)) then . else _c07_mark end; `},
+	{"fromjson-nonstring-input-accepted", `def _c07_fromjson: fromjson; def fromjson: if type == "string" then . else _c07_mark end | _c07_fromjson; `},
+	{"split1-is-regex-split", `def _c07_split($s): split($s); def split($s): if ($s | type) == "string" and type == "string" and (($s | contains("\\")) or ($s | explode | implode) != $s or (explode | implode) != .) then _c07_mark else . end | _c07_split($s); `},
 }
 
 type obs struct {
 	Values  []any
 	Failed  bool
-	Halted  bool // ended in a halt error carrying the detector mark
+	Marked  bool // a detector's precondition was met during the run
 	Timeout bool
 	Compile bool // did not compile
 	Panic   string
@@ -111,7 +111,10 @@ func refRun(prelude, prog string, input any) (o obs) {
 		o.Compile = true
 		return o
 	}
-	code, err := gojq.Compile(q)
+	code, err := gojq.Compile(q, gojq.WithFunction("_c07_mark", 0, 0, func(v any, _ []any) any {
+		o.Marked = true
+		return v
+	}))
 	if err != nil {
 		o.Compile = true
 		return o
@@ -124,6 +127,8 @@ func refRun(prelude, prog string, input any) (o obs) {
 	}()
 	ctx, cancel := context.WithTimeout(context.Background(), refTimeout)
 	defer cancel()
+	guardSet(cancel)
+	defer guardClear()
 	iter := code.RunWithContext(ctx, input)
 	for {
 		v, ok := iter.Next()
@@ -137,12 +142,6 @@ func refRun(prelude, prog string, input any) (o obs) {
 			// formatting the message can panic inside the engine (a Go error struct
 			// used as a jq value); every consumer of the error would hit that
 			_ = e.Error()
-			var he *gojq.HaltError
-			if errors.As(e, &he) {
-				if s, ok := he.Value().(string); ok && s == mark {
-					o.Halted = true
-				}
-			}
 			o.Failed = true
 			return o
 		}
@@ -263,7 +262,7 @@ func equalVal(a, b any) bool {
 	}
 	// not a jq value (the embedded engine sometimes emits a Go error struct as a
 	// value, e.g. "abc" | index(true)): same Go value in both engines is agreement
-	return fmt.Sprintf("%#v", a) == fmt.Sprintf("%#v", b)
+	return fmt.Sprintf("%T %v", a, a) == fmt.Sprintf("%T %v", b, b)
 }
 
 // diff describes the first disagreement between the fq and reference observables.
@@ -326,6 +325,8 @@ func (e *engine) fqBatch(t testing.TB, input any, progs []string) (res []obs, er
 	x := e.get(t)
 	ctx, cancel := context.WithTimeout(context.Background(), fqTimeout)
 	defer cancel()
+	guardSet(cancel)
+	defer guardClear()
 	defer func() {
 		if r := recover(); r != nil {
 			err = fmt.Errorf("panic: %v", r)
@@ -355,10 +356,11 @@ var fqVariants = []struct {
 	uses    []string
 	prelude string
 }{
-	// the embedded engine leaks state from `|= (. // x)` into a later `?//` (reproducible in raw
-	// gojq); fq's fromjson reaches that through decode -> options.  Without the options call the
-	// program agrees.
-	{"engine-state-leak-into-destructuring-alternative", []string{"fromjson", "?//"}, "def fromjson: _decode(\"json\"; {}) | if ._error then error(._error.error) end; "},
+	// the embedded engine leaks state into `?//`: from an earlier `|= (. // x)` (reproducible in raw
+	// gojq; fq's fromjson reaches it through decode -> options) and from dead call frames (a
+	// variable of a pattern that did not match reads "stderr", the argument of fq's _stdio($name)).
+	// With fromjson, debug and stderr replaced by definitions without such calls the program agrees.
+	{"engine-state-leak-into-destructuring-alternative", []string{"?//"}, "def fromjson: _decode(\"json\"; {}) | if ._error then error(._error.error) end; def debug: .; def debug(f): (f | empty), .; def stderr: .; "},
 	// fromjson returns a decode value (by design: it has ._format, tobytes, ...); as a jq value it
 	// is not the plain JSON value
 	{"fromjson-result-is-decode-value", []string{"fromjson"}, "def _c07_fromjson: fromjson; def fromjson: _c07_fromjson | _tovalue({bits_format: \"string\"}); "},
@@ -368,7 +370,7 @@ var fqVariants = []struct {
 // that removes it, or the generic kind + overloaded built-ins used.
 func attribute(t testing.TB, p *jqgen.Prog, input any, ref obs, generic string) string {
 	for _, d := range detectors {
-		if o := refRun(d.prelude+refPrelude, p.Text, input); o.Halted {
+		if o := refRun(d.prelude+refPrelude, p.Text, input); o.Marked {
 			return d.sig
 		}
 	}
@@ -534,6 +536,8 @@ func checkPairs(t testing.TB, input any, ps []pair, fail func(sig, msg string, p
 func refBatch(input any, texts []string) ([]obs, bool) {
 	ctx, cancel := context.WithTimeout(context.Background(), refTimeout)
 	defer cancel()
+	guardSet(cancel)
+	defer guardClear()
 	var outs []any
 	var rerr, cerr error
 	func() {
@@ -581,9 +585,10 @@ func TestDiff(t *testing.T) {
 			eng.x.Close()
 			eng.x = nil
 		}
+		harness.ExtraAdd("memory_guard_hits", guardHits.Swap(0))
 	}()
 	// totals are batches summed over all shards
-	harness.Rapid(t, 3200, 64000, func(rt *rapid.T, c *harness.Case) {
+	harness.Rapid(t, 3200, 44800, func(rt *rapid.T, c *harness.Case) {
 		input := jqgen.Value(rt, 3)
 		n := rapid.IntRange(1, batchSize).Draw(rt, "n")
 		if n < batchSize && rapid.IntRange(0, 9).Draw(rt, "full") > 0 {
@@ -770,6 +775,8 @@ func TestSeeds(t *testing.T) {
 		{`null`, `["[{\"key\":\"a\",\"value\":1}]" | fromjson | .[]] | from_entries`},
 		{`[49]`, `fromjson`},
 		{`[1]`, `[("1" | fromjson), (foreach .[]? as $i (("^$" as $y ?// [$b] | $b) + "x"; .; .))]`},
+		{`{}`, `(def f1(g): (.["a.b"] | tojson | explode) | stderr; try f1(1e300)) | join((to_entries | map(.value)) as $x ?// {$x, b: $c, b: $x} | @json "v=\(.)" , $c)`},
+		{`"true"`, `((tojson | fromjson) | "\(.)") as $x ?// [$b, $c, $b] | ((split("\\") | length) | empty) | tojson`},
 		{`"aXbxC"`, `test("B"; "i"), test("B"), [match("x"; "gi") | .offset], [scan("[A-Z]")], capture("(?<u>[A-Z])"), split("x"), [splits("[xX]")], explode`},
 		{`{"a":[1,1e21,1e-7,12345678901234567890,-0.0,"\u007f<&>é😀"],"b":null}`, `tojson, @json, (tojson | fromjson), tostring`},
 		{`[3,1,2]`, `debug, debug("m"), stderr, (sort | group_by(. > 1)), [paths], (to_entries | from_entries? // "x")`},
